@@ -446,11 +446,101 @@ def compare(res: Result, level, stream, kinds, fault, sched_kind, cuts, maxsize,
 
 
 def plan(tier, seed):
-    n = 16 if tier == 'quick' else 48
-    return [{'shard': i, 'nshards': n, 'streams': 24 if tier == 'quick' else 400, 'short': 3 if tier == 'quick' else 10} for i in range(n)]
+    n = 12 if tier == 'quick' else 40
+    shards = [{'shard': i, 'nshards': n, 'streams': 24 if tier == 'quick' else 400, 'short': 3 if tier == 'quick' else 10} for i in range(n)]
+    m = 4 if tier == 'quick' else 16
+    shards += [{'shard': 1000 + i, 'level3': True, 'cases': 12 if tier == 'quick' else 120} for i in range(m)]
+    return shards
+
+
+def run_level3(desc):
+    """L3: live ESTABLISHED session in the lab; the remote sends a stream in segments separated by VIRTUAL delays
+    around the 0.1 s read timeout of Peer._main; observed: API receive-parsed events and what comes back on the wire"""
+    import json as _json
+
+    from vlib import scen
+
+    res = Result()
+    r = random.Random(desc['seed'] * 104729 + desc['shard'])
+    for ci in range(desc['cases']):
+        n = r.randrange(2, 7)
+        msgs = [scen.simple_update(1000 * ci % 60000 + i) for i in range(n)]
+        ids = [(1000 * ci % 60000 + i) for i in range(n)]
+        fault = None
+        stream = b''.join(msgs)
+        if r.random() < 0.35:
+            fault, hdr = faulty_header(r, 4096)
+            stream += hdr + CANARY
+        # cut positions: inside headers, at boundaries, inside bodies
+        ncuts = r.randrange(1, 5)
+        cuts = sorted({r.randrange(1, len(stream)) for _ in range(ncuts)})
+        delays = [r.choice([0.0, 0.05, 0.09, 0.1, 0.11, 0.15, 0.3, 1.0]) for _ in cuts]
+        seg = []
+        prev = 0
+        for c, d in zip(cuts, delays):
+            seg += [stream[prev:c].hex(), d]
+            prev = c
+        seg += [stream[prev:].hex(), 0]
+        cfg = {'hold': 90, 'families': [(1, 1)], 'adjin': True, 'api': True, 'api_receive': True, 'routes': 1}
+        steps = [['accept', 20.0], ['establish'], ['wait_quiet', 0.5, 10.0], ['mark', 'inject'], ['sendseg', seg], ['sleep', 1.0], ['ka'], ['sleep', 0.5], ['mark', 'probe-end']]
+        case = {'config': cfg, 'steps': steps, 'vtimeout': 120.0, 'wall': 60.0}
+        status, rec = scen.run_case(case)
+        dclass = 'gap>timeout' if any(d > 0.1 for d in delays) else 'gap<=timeout'
+        cls = f'L3:{fault.split("@")[0] if fault else "clean"}:{dclass}'
+        if status != 'ok':
+            res.inconclusive.append(f'L3 case {ci}: lab {status} {str(rec)[:200]}')
+            continue
+        if any(x[1] in ('no-connection', 'not-established') for x in rec['notes']):
+            res.inconclusive.append(f'L3 case {ci}: {rec["notes"]}')
+            continue
+        sess = rec['sessions'][0]
+        t_inj = [e['t'] for e in rec['events'] if e['kind'] == 'mark' and e.get('name') == 'inject'][0]
+        notifs = [(m[0], bytes.fromhex(m[2].split('..')[0])[:2]) for m in sess['rx'] if m[1] == rw.NOTIFICATION and m[0] >= t_inj]
+        seen = []
+        for line in rec['helper_rx'].split('\n'):
+            if '"type": "update"' not in line and '"type":"update"' not in line:
+                continue
+            try:
+                ev = _json.loads(line)
+            except ValueError:
+                continue
+            ann = ev.get('neighbor', {}).get('message', {}).get('update', {}).get('announce', {}).get('ipv4 unicast', {})
+            for nh, lst in ann.items():
+                for item in lst:
+                    seen.append(item.get('nlri'))
+        want = [f'172.{(i >> 8) & 255}.{i & 255}.0/24' for i in ids]
+        wit = {'segments': seg if len(stream) < 1500 else '(long)', 'cuts': cuts, 'delays': delays, 'fault': fault, 'delivered': seen, 'expected': want, 'notifications': [(t, b.hex()) for t, b in notifs], 'eof_at': sess['eof_at']}
+        canary = '202.254.202.254/32' in seen
+        if canary:
+            res.violation(f'C06/L3-canary-delivered:{fault}', 'bytes after a faulty header were interpreted', wit, cls)
+            continue
+        if fault is None:
+            if notifs or sess['eof_at'] is not None:
+                key = 'C06/L3-desync-after-slow-segments' if dclass == 'gap>timeout' else 'C06/L3-desync'
+                res.violation(key, f'clean stream in segments (delays {delays}) ended the session: {[(t, b.hex()) for t, b in notifs]}', wit, cls)
+            elif seen != want:
+                res.violation('C06/L3-delivery-differs', f'delivered {seen} expected {want}', wit, cls)
+            else:
+                res.ok(cls, ('L3', n, tuple(sorted(set(delays))), len(cuts)))
+        else:
+            msgs_exp, exp_fault = expected(stream, 4096, 'L2')
+            exp_ok = want[: len([1 for t, b in msgs_exp if t == rw.UPDATE])]
+            if seen[: len(exp_ok)] != exp_ok or len(seen) > len(exp_ok):
+                # a slow-segment desync may cut the delivery short before the fault is even reached
+                key = 'C06/L3-desync-after-slow-segments' if dclass == 'gap>timeout' and len(seen) < len(exp_ok) else 'C06/L3-delivery-differs'
+                res.violation(key, f'delivered {seen} expected {exp_ok} before the fault', wit, cls)
+            elif not notifs or tuple(notifs[0][1]) != tuple(exp_fault):
+                key = 'C06/L3-desync-after-slow-segments' if dclass == 'gap>timeout' else f'C06/L3-wrong-code:{fault.split("@")[0]}'
+                res.violation(key, f'fault {fault}: notifications {[(t, b.hex()) for t, b in notifs]} expected {exp_fault}', wit, cls)
+            else:
+                res.ok(cls, ('L3', n, fault.split('@')[0], tuple(sorted(set(delays)))))
+        res.sample({'level': 'L3', 'cuts': cuts, 'delays': delays, 'fault': fault, 'delivered': seen[:4]}, limit=2)
+    return res
 
 
 def run_shard(desc):
+    if desc.get('level3'):
+        return run_level3(desc)
     res = Result()
     exa.quiet()
     r = random.Random(desc['seed'] * 7919 + desc['shard'])
@@ -509,10 +599,16 @@ def finish(merged, tier, seed):
     # class coverage promise: every level saw clean streams, marker faults, length faults and unknown types
     need = {}
     for cls, n in merged['classes'].items():
+        if cls.startswith('L3:'):
+            continue
         level, fk, sk, mx = cls.split(':')
         group = 'clean' if fk == 'clean' else 'marker' if fk == 'marker' else 'type' if fk.startswith('type') else 'length'
         need[(level, group)] = need.get((level, group), 0) + n
         need[(level, 'max' + mx)] = need.get((level, 'max' + mx), 0) + n
+    l3 = {c: n for c, n in merged['classes'].items() if c.startswith('L3:')}
+    merged['extra']['level3_classes'] = l3
+    if not any(c.startswith('L3:clean') for c in l3):
+        merged['inconclusive'].append('L3 (live session with virtual delays) never judged a clean stream')
     missing = [f'{lv}:{g}' for lv in ('L1', 'L1g', 'L2', 'L2w') for g in ('clean', 'marker', 'type', 'length', 'max4096', 'max65535') if not need.get((lv, g))]
     if missing:
         merged['inconclusive'].append('fault group never compared: ' + ','.join(missing))
